@@ -182,7 +182,7 @@ func (a *genericAuthenticator) getSubjectInformation(ctx heimdall.Context, authD
 	)
 
 	if a.ttl > 0 {
-		cacheKey = a.calculateCacheKey(authData)
+		cacheKey = a.calculateCacheKey(ctx, authData)
 		if entry, err := cch.Get(ctx.AppContext(), cacheKey); err == nil && a.sessionIsValid(entry) {
 			logger.Debug().Msg("Reusing subject information from cache")
 
@@ -360,7 +360,7 @@ func (a *genericAuthenticator) getCacheTTL(sessionLifespan *SessionLifespan) tim
 	return a.ttl
 }
 
-func (a *genericAuthenticator) calculateCacheKey(reference string) string {
+func (a *genericAuthenticator) calculateCacheKey(ctx heimdall.Context, reference string) string {
 	digest := sha256.New()
 	// the id stands for everything the result depends on, but which is not part of the endpoint
 	// definition (payload, forwarded headers and cookies, session lifespan settings)
@@ -374,6 +374,17 @@ func (a *genericAuthenticator) calculateCacheKey(reference string) string {
 
 	digest.Write([]byte{0})
 	digest.Write(stringx.ToBytes(reference))
+
+	// the values of the forwarded headers and cookies reach the endpoint and may influence its response
+	for _, headerName := range a.fwdHeaders {
+		digest.Write([]byte{0})
+		digest.Write(stringx.ToBytes(ctx.Request().Header(headerName)))
+	}
+
+	for _, cookieName := range a.fwdCookies {
+		digest.Write([]byte{0})
+		digest.Write(stringx.ToBytes(ctx.Request().Cookie(cookieName)))
+	}
 
 	return hex.EncodeToString(digest.Sum(nil))
 }
